@@ -13,20 +13,24 @@ import (
 
 // Limits bound a generated workload.
 type Limits struct {
-	MaxOps       int
-	MaxPayload   int  // largest single payload
-	MaxTotal     int  // rough cap on the sum of payload bytes
-	UTF8Only     bool // restrict strings to valid UTF-8 (cross-language checks)
-	NoAttach     bool
-	NoMetadata   bool
-	MinMessages  int
-	NoMaxTime    bool // avoid 2^64-1 timestamps
-	NoCustom     bool
-	ForceChunked bool
-	ForceIndexed bool // keep chunk indexes + repeated schemas/channels
+	MaxOps        int
+	MaxPayload    int  // largest single payload
+	MaxTotal      int  // rough cap on the sum of payload bytes
+	UTF8Only      bool // restrict strings to valid UTF-8 (cross-language checks)
+	NoAttach      bool
+	NoMetadata    bool
+	MinMessages   int
+	NoMaxTime     bool // avoid 2^64-1 timestamps
+	NoCustom      bool
+	ForceChunked  bool
+	ForceIndexed  bool // keep chunk indexes + repeated schemas/channels
 	NoCompression bool
-	ForceCRC     bool
-	SmallTimes   bool
+	ForceCRC      bool
+	SmallTimes    bool
+	// CheapCodecs forces the fastest compression level: checks that re-run the
+	// writer or reader thousands of times per file cannot afford the table
+	// set-up of the high levels (lz4 HC, zstd best)
+	CheapCodecs bool
 }
 
 var Quick = Limits{MaxOps: 40, MaxPayload: 3000, MaxTotal: 40000}
@@ -321,6 +325,9 @@ func Cfg(t *rapid.T, lim Limits) scen.Cfg {
 			// levels); they are drawn less often so that a batch explores more
 			c.Compression = pick(t, "compression", "", "", "lz4", "lz4", "zstd")
 			c.Level = pick(t, "level", 1, 0, 1, 0, 1, 2, 3)
+			if lim.CheapCodecs {
+				c.Level = 1
+			}
 			if !lim.NoCustom && rapid.IntRange(0, 9).Draw(t, "custom") == 0 {
 				c.Custom = pick(t, "custom.kind", "xor", "flate", "nonce", "eager")
 				c.Compression = ""
